@@ -57,6 +57,8 @@ pub enum TypeErrorEnum {
     UnknownStructField(String, String),
     /// The struct constructor is missing the specified field.
     MissingStructField(String, String),
+    /// The struct constructor or pattern names the specified field more than once.
+    DuplicateStructField(String, String),
     /// No enum declaration with the specified name exists.
     UnknownEnum(String, String),
     /// The enum exists, but no variant declaration with the specified name was found.
@@ -146,6 +148,9 @@ impl std::fmt::Display for TypeErrorEnum {
             ),
             TypeErrorEnum::MissingStructField(struct_name, struct_field) => f.write_fmt(
                 format_args!("Field '{struct_field}' is missing for struct '{struct_name}'"),
+            ),
+            TypeErrorEnum::DuplicateStructField(struct_name, struct_field) => f.write_fmt(
+                format_args!("Field '{struct_field}' of struct '{struct_name}' is specified more than once"),
             ),
             TypeErrorEnum::UnknownEnum(enum_name, enum_variant) => {
                 f.write_fmt(format_args!("Unknown enum '{enum_name}::{enum_variant}'"))
@@ -1604,15 +1609,16 @@ impl UntypedExpr {
                             errors.push(Some(TypeError::new(e, meta)));
                         }
                     }
-                    if struct_def.len() > fields.len() {
-                        for expected_field_name in struct_def.keys() {
-                            if !fields.iter().any(|(f, _)| f == expected_field_name) {
-                                let e = TypeErrorEnum::MissingStructField(
-                                    name.clone(),
-                                    expected_field_name.to_string(),
-                                );
-                                errors.push(Some(TypeError::new(e, meta)));
-                            }
+                    for expected_field_name in struct_def.keys() {
+                        let n = fields.iter().filter(|(f, _)| f == expected_field_name).count();
+                        if n != 1 {
+                            let field = expected_field_name.to_string();
+                            let e = if n == 0 {
+                                TypeErrorEnum::MissingStructField(name.clone(), field)
+                            } else {
+                                TypeErrorEnum::DuplicateStructField(name.clone(), field)
+                            };
+                            errors.push(Some(TypeError::new(e, meta)));
                         }
                     }
                     if errors.is_empty() {
@@ -1792,15 +1798,16 @@ impl UntypedPattern {
                             errors.push(Some(TypeError::new(e, meta)));
                         }
                     }
-                    if !ignore_remaining_fields && struct_def.len() > fields.len() {
-                        for expected_field_name in struct_def.keys() {
-                            if !fields.iter().any(|(f, _)| f == expected_field_name) {
-                                let e = TypeErrorEnum::MissingStructField(
-                                    struct_name.clone(),
-                                    expected_field_name.to_string(),
-                                );
-                                errors.push(Some(TypeError::new(e, meta)));
-                            }
+                    for expected_field_name in struct_def.keys() {
+                        let n = fields.iter().filter(|(f, _)| f == expected_field_name).count();
+                        if n > 1 || (n == 0 && !ignore_remaining_fields) {
+                            let field = expected_field_name.to_string();
+                            let e = if n == 0 {
+                                TypeErrorEnum::MissingStructField(struct_name.clone(), field)
+                            } else {
+                                TypeErrorEnum::DuplicateStructField(struct_name.clone(), field)
+                            };
+                            errors.push(Some(TypeError::new(e, meta)));
                         }
                     }
                     if errors.is_empty() {
